@@ -308,5 +308,107 @@ pub fn main_pool_stress() {
     eprintln!("cases={ncases}");
 }
 
+/// `vh-graph pool-race --out TRACE --cases N --rounds R`
+///
+/// Free-running contention without the event sink (the sink serialises the threads and narrows every
+/// race window): T threads hammer one pool that is pre-filled with interleaved small and large buffers
+/// of two element layouts.  Each round allocates, checks the capacity, writes a thread-unique pattern,
+/// yields, verifies the pattern (exclusive ownership: nobody else was handed the same memory) and gives
+/// the buffer back.  The outcome of a case is a handful of counters judged by Trace_PoolRace.tla.
+pub fn main_pool_race() {
+    use std::sync::atomic::{AtomicBool, AtomicUsize, Ordering};
+    let out = vcommon::arg("--out").expect("--out");
+    let ncases = vcommon::arg_usize("--cases", 6);
+    let rounds = vcommon::arg_usize("--rounds", 60_000);
+    vcommon::quiet_panics();
+    let mut tr = vcommon::Trace::create(&out);
+    let mut rng = Rng::from_env();
+    for ci in 0..ncases {
+        let nthreads = *rng.pick(&[2usize, 4, 4, 8]);
+        let pool = Arc::new(BufferPool::new());
+        // interleaved small / large buffers of 4- and 8-byte element layouts
+        for i in 0..24 {
+            let cap = if i % 2 == 0 { 64 } else { 1024 };
+            if i % 4 < 2 {
+                pool.add(Vec::<f32>::with_capacity(cap));
+            } else {
+                pool.add(Vec::<u64>::with_capacity(cap));
+            }
+        }
+        let too_small = Arc::new(AtomicUsize::new(0));
+        let corrupted = Arc::new(AtomicUsize::new(0));
+        let done_rounds = Arc::new(AtomicUsize::new(0));
+        let stop = Arc::new(AtomicBool::new(false));
+        let mut handles = Vec::new();
+        for t in 0..nthreads {
+            let (pool, too_small, corrupted, done_rounds, stop) =
+                (pool.clone(), too_small.clone(), corrupted.clone(), done_rounds.clone(), stop.clone());
+            let seed = rng.next_u64();
+            handles.push(std::thread::spawn(move || {
+                let stop2 = stop.clone();
+                vcommon::guarded(move || {
+                    let mut rng = Rng::new(seed);
+                    for r in 0..rounds {
+                        if stop.load(Ordering::Relaxed) {
+                            break;
+                        }
+                        let cap = *rng.pick(&[16usize, 64, 65, 512, 1024]);
+                        let tag = ((t as u32) << 24) | (r as u32 & 0xff_ffff);
+                        macro_rules! round {
+                            ($ty:ty, $val:expr) => {{
+                                let mut v = pool.alloc::<$ty>(cap);
+                                if v.capacity() < cap {
+                                    too_small.fetch_add(1, Ordering::Relaxed);
+                                } else {
+                                    v.clear();
+                                    v.resize(cap, $val);
+                                    if rng.chance(1, 3) {
+                                        std::thread::yield_now();
+                                    }
+                                    if v.iter().any(|x| *x != $val) {
+                                        corrupted.fetch_add(1, Ordering::Relaxed);
+                                    }
+                                }
+                                if rng.chance(7, 8) {
+                                    pool.add(v);
+                                }
+                            }};
+                        }
+                        match rng.below(3) {
+                            0 => round!(f32, f32::from_bits(tag & 0x3fff_ffff)),
+                            1 => round!(u64, tag as u64),
+                            _ => round!(i32, tag as i32),
+                        }
+                        done_rounds.fetch_add(1, Ordering::Relaxed);
+                    }
+                })
+                .map_err(|m| {
+                    stop2.store(true, Ordering::Relaxed);
+                    m
+                })
+            }));
+        }
+        let mut panics = 0;
+        let mut msg = String::new();
+        for h in handles {
+            match h.join() {
+                Ok(Ok(())) => {}
+                Ok(Err(m)) => {
+                    panics += 1;
+                    if msg.is_empty() {
+                        msg = m.chars().take(80).collect();
+                    }
+                }
+                Err(_) => panics += 1,
+            }
+        }
+        tr.emit(vcommon::json!({"ev": "race_case", "case": ci, "threads": nthreads, "rounds": rounds,
+            "done": done_rounds.load(Ordering::Relaxed), "too_small": too_small.load(Ordering::Relaxed),
+            "corrupted": corrupted.load(Ordering::Relaxed), "panics": panics, "msg": msg}));
+    }
+    tr.flush();
+    eprintln!("cases={ncases}");
+}
+
 #[allow(dead_code)]
 fn unused(_: Value) {}
